@@ -316,6 +316,10 @@ func entryLen(c *Ctx) int {
 func solveVacuity(c *Ctx, o *Obligation, dir string) {
 	var b strings.Builder
 	b.WriteString("(set-logic ALL)\n")
+	for _, l := range c.sortDecls {
+		b.WriteString(l)
+		b.WriteByte('\n')
+	}
 	for i := 0; i < o.CtxLen; i++ {
 		b.WriteString(c.lines[i])
 		b.WriteByte('\n')
@@ -404,6 +408,9 @@ func cmdDump(args []string) int {
 			if err != nil {
 				fmt.Println("error:", err)
 				continue
+			}
+			for _, l := range c.sortDecls {
+				fmt.Println(l)
 			}
 			for _, l := range c.lines {
 				fmt.Println(l)
